@@ -48,6 +48,8 @@ def classify_call(fn, b, t):
         return "refcell", n
     if n in TIME_OPS and ("std::time::SystemTime as std::ops::" in inst or "std::time::Duration as std::ops::" in inst or "std::time::Instant as std::ops::" in inst):
         return "timeop", _short_ty(inst)
+    if c in ("std::io::_print", "std::io::_eprint"):
+        return "output", n
     # dependency conversions documented to panic on out-of-range input
     if n in ("from", "into") and "chrono::DateTime" in inst and "SystemTime" in inst:
         return "dep", "chrono DateTime from SystemTime"
@@ -225,6 +227,8 @@ def t1_index(za, site):
         return True, "unreachable in the abstract semantics"
     d, env = st
     inst = t.j.get("callee_inst") or ""
+    if "RangeFull" in inst:
+        return True, "full range"
     bl = za.base_local(t.args[0], env)
     if bl is None:
         return False, "receiver is not a tracked sequence"
@@ -255,6 +259,33 @@ def t1_index(za, site):
     return False, "index operand not a linear form"
 
 
+def t1_seqop(za, site):
+    """split_at / split_at_mut / split_off (mid <= len) and remove / swap_remove (index < len) on tracked sequences"""
+    fn, b, t = site.fn, site.bb, site.term
+    st = za.state_before_term(b)
+    if st is None:
+        return True, "unreachable in the abstract semantics"
+    d, env = st
+    n = t.j.get("callee_name")
+    if n not in ("split_at", "split_at_mut", "split_off", "remove", "swap_remove", "truncate") or len(t.args) < 2:
+        return False, ""
+    bl = za.base_local(t.args[0], env)
+    if bl is None:
+        e = env.get(t.args[0].place.local) if (t.args[0].place is not None and t.args[0].place.is_local()) else None
+        if e is not None and e[0] == "alias_mut":
+            bl = za.base_local(e[1], env)
+    if bl is None:
+        return False, "receiver is not a tracked sequence"
+    ln = ("lin", za.len_of_local[bl], 0)
+    f = za.lin_of_operand(t.args[1], env)
+    if f is None:
+        return False, "operand not a linear form"
+    slack = 0 if n in ("split_at", "split_at_mut", "split_off", "truncate") else -1
+    if za.le(d, f, ln, slack):
+        return True, "zone: %s %s %s" % (za.describe(d, f), "<=" if slack == 0 else "<", za.describe(d, ln))
+    return False, "%s vs %s" % (za.describe(d, f), za.describe(d, ln))
+
+
 # ------------------------------------------------------------------------------------------------------------
 # T2: categorical
 # ------------------------------------------------------------------------------------------------------------
@@ -264,6 +295,8 @@ OUTPUT_CALLS = ("write_fmt", "flush", "write_all", "write", "write_str")
 
 def t2(site):
     fn, b, t = site.fn, site.bb, site.term
+    if site.kind == "output":
+        return "T2a", "print!/eprint! panic only when the write to stdout/stderr fails (the state of the output pipe is outside the property's quantifier)"
     if site.kind != "unwrap":
         return None
     o = prim.expand_single_def_vars(fn, prim.origin_of_operand(fn, t.args[0])).strip()
@@ -470,6 +503,40 @@ def check_condition(prog, site, cond):
             if flag is None:
                 return False, "caller %s passes a non-constant %s" % (f2.path, p)
         return n > 0, "dominated by %s == true, and all %d callers pass %s=true only with %s = <expr> + 1" % (p, n, p, cond["index_param"])
+    if ty == "dominated_by_gt_zero":
+        want = cond.get("callee")
+        for gd in gs:
+            pr = gd["pred"].strip()
+            if pr.k == "bin" and pr.a in ("Gt", "Ne") and gd["bool"] is True and any(c.get("v") == 0 for c in pr.consts()):
+                ex = prim.expand_single_def_vars(fn, pr)
+                if want is None or any(c.a["name"] == want for c in ex.call_nodes()):
+                    return True, "dominated by %s > 0" % (want or "value")
+        return False, "no dominating `%s > 0`; guards %s" % (want, prim.guards_fmt(gs)[:200])
+    if ty == "dominated_by_field_lt":
+        a_, b_ = cond["lhs"], cond["rhs"]
+        for gd in gs:
+            pr = gd["pred"].strip()
+            if pr.k == "bin" and pr.a in ("Lt",) and gd["bool"] is True:
+                l, r = pr.kids[0].strip(), pr.kids[1].strip()
+                if l.k == "field" and l.a == a_ and r.k == "field" and r.a == b_:
+                    return True, "dominated by self.%s < self.%s (so +1 cannot overflow)" % (a_, b_)
+        return False, "no dominating self.%s < self.%s; guards %s" % (a_, b_, prim.guards_fmt(gs)[:200])
+    if ty == "variant_constructed_under_len_gt":
+        adt, var = cond["adt"], cond["variant"]
+        n = 0
+        for f2 in prog.fns.values():
+            for b2 in f2.reachable():
+                for st in f2.blocks[b2].stmts:
+                    if st.rv is not None and st.rv.k == "agg" and st.rv.j.get("adt") == adt and st.rv.j.get("variant") == var:
+                        n += 1
+                        ok = False
+                        for gd in prim.dominating_guards(f2, b2):
+                            pr = gd["pred"].strip()
+                            if pr.k == "bin" and pr.a == "Gt" and gd["bool"] is True and any(c.get("v") == 0 for c in pr.consts()) and any(c.a["name"] == "len" for c in pr.call_nodes()):
+                                ok = True
+                        if not ok:
+                            return False, "%s::%s constructed in %s without a dominating len() > 0" % (adt, var, f2.path)
+        return n > 0, "all %d constructions of %s::%s are dominated by len() > 0 of the collected arguments" % (n, adt.split("::")[-1], var)
     if ty == "const_arg":
         v = t.args[cond["arg"]].const_value()
         return (v == cond["value"]), "argument %d is %s" % (cond["arg"], v)
@@ -603,6 +670,10 @@ def interval(fn, o, za=None, d=None, depth=8):
             return (min(c), max(c))
         if op == "BitAnd" and b is not None and b[0] == b[1] and b[0] >= 0:
             return (0, b[0])
+    if s.k == "call" and s.a["name"] == "len" and any(x in s.a["callee"] for x in ("slice", "Vec", "str", "String", "OsStr", "OsString", "Path")):
+        return (0, zone.MAXLEN)
+    if s.k == "len":
+        return (0, zone.MAXLEN)
     if s.k == "call":
         r = API_RANGES.get((s.a["callee"].split("::<")[0], ))
         if r is None:
